@@ -10,6 +10,7 @@
 #include <pthread.h>
 #include <stdint.h>
 #include <stdlib.h>
+#include <string.h>
 #include <unistd.h>
 
 #include <atomic>
@@ -26,6 +27,12 @@ struct WorkShare
   bool up;
 };
 
+struct DeferredTask
+{
+  void (*fn)(void *);
+  void *arg;   // owned copy of the task's data block (malloc)
+};
+
 struct Team
 {
   int nthreads;
@@ -34,13 +41,32 @@ struct Team
   WorkShare ws;
   void (*fn)(void *);
   void *data;
+  std::vector<DeferredTask> tasks;  // deferred explicit tasks, run at the latest at the region's end
 };
+
+// run deferred tasks of the team until none is left (a task scheduling point)
+void drain_tasks(Team *t)
+{
+  for (;;) {
+    DeferredTask d;
+    {
+      std::lock_guard<std::mutex> lock(t->mtx);
+      if (t->tasks.empty())
+        return;
+      d = t->tasks.back();
+      t->tasks.pop_back();
+    }
+    d.fn(d.arg);
+    free(d.arg);
+  }
+}
 
 struct ThreadState
 {
   Team *team = nullptr;
   unsigned ws_seen = 0;
   int level = 0;
+  int active_level = 0;  // enclosing regions with more than one thread
   int thread_num = 0;
 };
 thread_local ThreadState tls;
@@ -58,6 +84,7 @@ struct Start
   Team *team;
   int num;
   int level;
+  int active_level;
 };
 
 void *team_thread(void *p)
@@ -67,8 +94,10 @@ void *team_thread(void *p)
   tls.team = s->team;
   tls.ws_seen = 0;
   tls.level = s->level;
+  tls.active_level = s->active_level;
   tls.thread_num = s->num;
   s->team->fn(s->team->data);
+  drain_tasks(s->team);  // implicit barrier at the end of the region: a task scheduling point
   tls = saved;
   return nullptr;
 }
@@ -85,7 +114,7 @@ void omp_set_num_threads(int n)
 int omp_get_max_threads(void) { return g_nthreads_var > 0 ? g_nthreads_var : default_threads(); }
 int omp_get_num_threads(void) { return tls.team ? tls.team->nthreads : 1; }
 int omp_get_thread_num(void) { return tls.thread_num; }
-int omp_in_parallel(void) { return tls.level > 0; }
+int omp_in_parallel(void) { return tls.active_level > 0; }
 int omp_get_num_procs(void) { return default_threads(); }
 
 void GOMP_parallel(void (*fn)(void *), void *data, unsigned num_threads, unsigned /*flags*/)
@@ -100,14 +129,16 @@ void GOMP_parallel(void (*fn)(void *), void *data, unsigned num_threads, unsigne
   std::vector<pthread_t> ths((size_t)n);
   std::vector<Start> starts((size_t)n);
   int level = tls.level + 1;
+  int active = tls.active_level + (n > 1 ? 1 : 0);
   for (int i = 1; i < n; i++) {
-    starts[(size_t)i] = {&team, i, level};
+    starts[(size_t)i] = {&team, i, level, active};
     pthread_create(&ths[(size_t)i], nullptr, team_thread, &starts[(size_t)i]);
   }
-  starts[0] = {&team, 0, level};
+  starts[0] = {&team, 0, level, active};
   team_thread(&starts[0]);
   for (int i = 1; i < n; i++)
     pthread_join(ths[(size_t)i], nullptr);
+  drain_tasks(&team);
 }
 
 static bool next_long(Team *t, long *istart, long *iend)
@@ -208,6 +239,91 @@ bool GOMP_loop_ull_dynamic_start(bool up, unsigned long long a, unsigned long lo
 bool GOMP_loop_ull_dynamic_next(unsigned long long *e, unsigned long long *f)
 {
   return GOMP_loop_ull_nonmonotonic_dynamic_next(e, f);
+}
+
+// explicit tasks: taskloop splits the iterations into tasks; unless 'nogroup' was given the construct
+// waits for them (they are run at once here); with 'nogroup' inside an active region they are deferred
+// and run at a later task scheduling point - at the latest at the end of the enclosing region
+enum { GOMP_TASK_FLAG_UP = 1 << 8, GOMP_TASK_FLAG_GRAINSIZE = 1 << 9, GOMP_TASK_FLAG_NOGROUP = 1 << 11 };
+
+static void taskloop_emit(void (*fn)(void *), void *data, void (*cpyfn)(void *, void *), long arg_size, long arg_align,
+                          unsigned flags, unsigned long long s, unsigned long long e, bool is_ull)
+{
+  (void)arg_align;
+  Team *t = tls.team;
+  bool defer = (flags & GOMP_TASK_FLAG_NOGROUP) && t && t->nthreads > 1;
+  void *arg = malloc((size_t)arg_size + 64);
+  if (cpyfn)
+    cpyfn(arg, data);
+  else
+    memcpy(arg, data, (size_t)arg_size);
+  if (is_ull) {
+    ((unsigned long long *)arg)[0] = s;
+    ((unsigned long long *)arg)[1] = e;
+  } else {
+    ((long *)arg)[0] = (long)s;
+    ((long *)arg)[1] = (long)e;
+  }
+  if (defer) {
+    std::lock_guard<std::mutex> lock(t->mtx);
+    t->tasks.push_back({fn, arg});
+  } else {
+    fn(arg);
+    free(arg);
+  }
+}
+
+void GOMP_taskloop(void (*fn)(void *), void *data, void (*cpyfn)(void *, void *), long arg_size, long arg_align, unsigned flags,
+                   unsigned long num_tasks, int /*priority*/, long start, long end, long step)
+{
+  if (step == 0 || (step > 0 ? start >= end : start <= end))
+    return;
+  unsigned long long n = step > 0 ? ((unsigned long long)(end - start) + (unsigned long long)step - 1) / (unsigned long long)step
+                                  : ((unsigned long long)(start - end) + (unsigned long long)(-step) - 1) / (unsigned long long)(-step);
+  unsigned long long per = 1;
+  if (flags & GOMP_TASK_FLAG_GRAINSIZE)
+    per = num_tasks ? num_tasks : 1;
+  else if (num_tasks)
+    per = (n + num_tasks - 1) / num_tasks;
+  for (unsigned long long i = 0; i < n; i += per) {
+    unsigned long long cnt = i + per <= n ? per : n - i;
+    long s = start + (long)i * step;
+    long e2 = s + (long)cnt * step;
+    taskloop_emit(fn, data, cpyfn, arg_size, arg_align, flags, (unsigned long long)s, (unsigned long long)e2, false);
+  }
+}
+
+void GOMP_taskloop_ull(void (*fn)(void *), void *data, void (*cpyfn)(void *, void *), long arg_size, long arg_align, unsigned flags,
+                       unsigned long num_tasks, int /*priority*/, unsigned long long start, unsigned long long end,
+                       unsigned long long step)
+{
+  bool up = flags & GOMP_TASK_FLAG_UP;
+  if (step == 0 || (up ? start >= end : start <= end))
+    return;
+  unsigned long long n = up ? (end - start + step - 1) / step : (start - end + (0 - step) - 1) / (0 - step);
+  unsigned long long per = 1;
+  if (flags & GOMP_TASK_FLAG_GRAINSIZE)
+    per = num_tasks ? num_tasks : 1;
+  else if (num_tasks)
+    per = (n + num_tasks - 1) / num_tasks;
+  for (unsigned long long i = 0; i < n; i += per) {
+    unsigned long long cnt = i + per <= n ? per : n - i;
+    unsigned long long s = start + i * step;
+    unsigned long long e2 = s + cnt * step;
+    taskloop_emit(fn, data, cpyfn, arg_size, arg_align, flags, s, e2, true);
+  }
+}
+
+void GOMP_taskwait(void)
+{
+  if (tls.team)
+    drain_tasks(tls.team);
+}
+void GOMP_taskgroup_start(void) {}
+void GOMP_taskgroup_end(void)
+{
+  if (tls.team)
+    drain_tasks(tls.team);
 }
 
 void GOMP_loop_end_nowait(void) {}
